@@ -246,9 +246,30 @@ CLAIMED["C18"] = dict(
          "enter a denominator, and the frequency samplers.",
     note="Trusted: clang, AST export, libm exp/pow within 2 ulp for the enclosures. Assumes non-negative Verner table entries.")
 
+CLAIMED["C16"] = dict(
+    level="other", design="3/C16",
+    technique="static analysis: symbolic execution of one traversal step of the three sibling implementations of DensityGrid::interact "
+              "(path-forking on the sign of the remaining optical depth, CAS identities on the extracted expressions); per-axis case "
+              "evaluation of the Cartesian grid's loop-free wall-intersection, periodic-wrap and neighbour functions over finite "
+              "classes of index (below / inside / above, with non-uniform comparisons reported) and the 13 weak orderings of the three "
+              "wall distances; mixed-radix floor certificate for the linear-index bijection; affine-inverse identity between "
+              "get_cell_indices and get_cell with the constructor's definitions substituted",
+    text="Decides, for every input at once, the clauses of C16 that are in the shape of the code. (1) Cartesian, AMR and Voronoi "
+         "interact() account a step identically: the optical depth of a step is linear in the path; the target is reduced by exactly "
+         "that; on overshoot the path is shortened so that the optical depth used equals the target exactly, the packet stops there and "
+         "the cell cursor does not advance; exactly one deposit per step, of the path actually travelled, into the cell whose opacity "
+         "was used, every deposited quantity proportional to the path; the position advances by that path times the direction and is "
+         "stored; end() is returned exactly when the loop's inside-condition fails. (2) Cartesian grid: wall distances, minimum, index "
+         "step with ties, wall point; periodic wrap of index and position for all 216 class/flag combinations; get_long_index / "
+         "get_indices are inverse bijections onto [0, number of cells); a cell's box is exactly the set of positions mapped to its "
+         "index; cell volume x number of cells = box volume; the neighbour table is c-1 / c+1 with wrap or none, normals -1 / +1 "
+         "(hence mutual). NOT decided: AMR refinement histories and key enumeration, AMR and Voronoi wall finding, Voronoi geometry, "
+         "the Octree / PointLocations searches, and anything numeric (round-off, positions exactly on walls).",
+    note="Trusted: clang, AST export, sympy; the wall point of the AMR / Voronoi helpers is assumed to be position + s x direction "
+         "(decided for the Cartesian helper only).")
+
 NOT_APPLICABLE = {
     "C15": "Validity of a Voronoi tessellation and agreement of two constructions quantify over real generator sets; correctness rests on geometric predicates and flip sequences whose outcomes are runtime values; no clause has its truth in the shape of the code.",
-    "C16": "Unique containment, volume sums, mutual neighbours after arbitrary refinement histories, path conservation and nearest-neighbour exactness are numeric/geometric statements over runtime trees and point sets; no table or pairing clause carries them.",
 }
 
 PENDING = "check not built yet (DESIGN.md section 6 build order); not claimed until it is"
